@@ -238,12 +238,17 @@ def reg_predicates(p, r):
     if p["kind"] == "cp":
         weights, factors = r.cp_weight_
         full = cp_full(None if weights is None else np.asarray(weights), [np.asarray(f) for f in factors])
+        mag = cp_full(None if weights is None else np.abs(np.asarray(weights)), [np.abs(np.asarray(f)) for f in factors])
         name = "cp_to_tensor(cp_weight_)"
     else:
         core, factors = r.tucker_weight_
         full = tucker_full(np.asarray(core), [np.asarray(f) for f in factors])
+        mag = tucker_full(np.abs(np.asarray(core)), [np.abs(np.asarray(f)) for f in factors])
         name = "tucker_to_tensor(tucker_weight_)"
-    if not close(W, full, 1e-12):
+    # the same float64 factors evaluated in two orders: the rounding error of either evaluation is a few ulp of the sum of the
+    # ABSOLUTE values of the terms (which can exceed |W| by orders of magnitude on a degenerate CP fit), so that sum is the scale
+    tolW = 1e-12 * max(1.0, float(np.max(mag)) if mag.size and np.all(np.isfinite(mag)) else 1.0)
+    if W.shape != full.shape or not np.all(np.isfinite(W)) or not np.all(np.abs(W - full) <= tolW):
         bad.append(("C19_weight_is_reconstruction", f"weight_tensor_ != {name}: max diff {np.max(np.abs(W - full)) if W.shape == full.shape else 'shape ' + str(W.shape) + ' vs ' + str(full.shape)}"))
     v = np.asarray(r.vec_W_)
     if v.shape != (W.size,) or not close(v, W.reshape(-1), 1e-12):
@@ -2244,7 +2249,7 @@ def run(chk):
     chk.cov["rule"] = ("predict on injected integer weights: every per-sample shape of order 1-3 over mode sizes {1,2,3} x output shapes (), (1), (2), (3), (2,2), (1,3), (3,2) "
                        "(quick: half of the order-3 ones) + flattened weights + mis-shaped requests, exact in Z; "
                        "random regression problems (samples 2-8, per-sample order 1-3, scalar / vector / matrix targets for CP, scalar for Tucker, ranks 1-3, reg_W in {0.01..10}, "
-                       "1-25 sweeps, seeds): fitted attributes -> model in Q vs implementation (1e-9); CP_PLSR problems (samples 2-8, per-sample order 1-3, 1-D and 1-3 column Y, 1-3 components, "
+                       "1-25 sweeps, seeds): fitted attributes -> model in Q vs implementation (1e-9); plus fits of both regressors that leave the loop through the convergence break (tol 1e-1, 1e-2, 1e-3, 1e-4, default; n_iter_max 400): predicates only, weight_tensor_ vs reconstruction of the exposed factors at 1e-12 of the terms' magnitude; CP_PLSR problems (samples 2-8, per-sample order 1-3, 1-D and 1-3 column Y, 1-3 components, "
                        "converged fits and fits stopped after 1-3 passes): X_mean_, transform(X), transform(X_train, Y_train)[1], predict from the fitted attributes -> model in 70-bit binary fixed point vs implementation (1e-9); "
                        "whole CP_PLSR.fit with pinned pass counts (tol=0: n_iter_max in 1-4 resp. up to 30 in thorough; tol=1e300: stops after pass 2), samples 3-7, 1-3 components, "
                        "initialize_cp / lstsq answers recorded from the implementation -> per-component loadings, X/Y scores, Y loadings of the model (fixed point) vs implementation (1e-8); "
